@@ -99,6 +99,12 @@ func (b *SpecBuilder) BlobN(cell string, n int64) *SpecBuilder {
 	return b.Fix(ln, n)
 }
 
+// MinLen states that the byte string cell has at least n bytes.
+func (b *SpecBuilder) MinLen(cell string, n int64) *SpecBuilder {
+	b.st.Facts = append(b.st.Facts, lin.Fact{F: lin.Sym("len(" + cell + ")").AddC(-n)})
+	return b
+}
+
 // LenField: w bits carrying the number of bytes of the byte string cell.
 func (b *SpecBuilder) LenField(w int, cell string) *SpecBuilder {
 	ln := "len(" + cell + ")"
